@@ -308,23 +308,38 @@ func c02Derive(c *Ctx) {
 			iOK = true
 			srcs := map[ssa.CallInstruction]bool{}
 			// the merge may be one phi or a chain of phis (goto form / for-loop form): take the non-phi leaves
-			var leaves []ssa.Value
-			seen := map[*ssa.Phi]bool{}
-			var walk func(p *ssa.Phi)
-			walk = func(p *ssa.Phi) {
-				if seen[p] {
-					return
-				}
-				seen[p] = true
-				for _, e := range p.Edges {
-					if q, isQ := e.(*ssa.Phi); isQ {
-						walk(q)
-					} else {
-						leaves = append(leaves, e)
+			phiLeaves := func(p *ssa.Phi) []ssa.Value {
+				var out []ssa.Value
+				seen := map[*ssa.Phi]bool{}
+				var walk func(p *ssa.Phi)
+				walk = func(p *ssa.Phi) {
+					if seen[p] {
+						return
+					}
+					seen[p] = true
+					for _, e := range p.Edges {
+						if q, isQ := e.(*ssa.Phi); isQ {
+							walk(q)
+						} else {
+							out = append(out, e)
+						}
 					}
 				}
+				walk(p)
+				return out
 			}
-			walk(phi)
+			var leaves []ssa.Value
+			for _, e := range phiLeaves(phi) {
+				// one Sum shared by several HMACs (`h` assigned in both branches, summed once after them): the leaf stands for
+				// each hash object its receiver may be
+				if call, isCall := e.(*ssa.Call); isCall && call.Call.IsInvoke() && call.Call.Method.Name() == "Sum" {
+					if rp, isPhi := call.Call.Value.(*ssa.Phi); isPhi {
+						leaves = append(leaves, phiLeaves(rp)...)
+						continue
+					}
+				}
+				leaves = append(leaves, e)
+			}
 			for _, e := range leaves {
 				// each way I is computed is the digest of one of the three HMACs made above
 				name, _ := classify(b.Of(e, shifts[0]))
